@@ -650,7 +650,9 @@ def unit_nan(ctx):
 # ==========================================================================
 # unit source: another field as specification
 
-RELS = ["same", "finer2", "finer3", "coarser", "larger", "shifted", "notcover"]
+# "samecount": as many cells and the same lower corner as the target, but cells twice / three halves as large (the target
+# covers the lower part of the source; equal n and pmin do not make two meshes the same discretisation)
+RELS = ["same", "finer2", "finer3", "coarser", "larger", "shifted", "samecount2", "samecount1.5", "notcover"]
 
 
 def unit_source(ctx):
@@ -678,6 +680,8 @@ def unit_source(ctx):
         sp1, sp2, sn = pmin - cell, pmax + cell, tuple(i + 2 for i in n)
     elif rel == "shifted":
         sp1, sp2, sn = pmin - 0.25 * cell, pmax + 0.75 * cell, tuple(i + 1 for i in n)
+    elif rel.startswith("samecount"):
+        sp1, sp2, sn = pmin, pmin + float(rel[9:]) * (pmax - pmin), n
     else:  # the source lies one cell further along the first axis: the first layer of target centres is not covered
         sh = np.zeros(nd)
         sh[0] = cell[0]
